@@ -197,6 +197,16 @@ class ReaderRunner(object):
                 except Unknown:
                     return Opaque('dict')
             return out
+        if isinstance(node, ast.IfExp):
+            # klass = ast.Bitfield if node.tag == ... else ast.Enum
+            try:
+                c = truthy(ev(node.test, env))
+            except Unknown:
+                tv = self._eval(node.test, env, built) if isinstance(node.test, ast.Call) and self._inlinable(node.test, env) else Opaque('test')
+                if isinstance(tv, Opaque):
+                    return Opaque('expr:%s' % P.src(node))
+                c = truthy(tv)
+            return self._eval(node.body if c else node.orelse, env, built)
         if isinstance(node, ast.Call):
             cc = self._ctor_class(node, env)
             if cc:
@@ -283,6 +293,11 @@ class ReaderRunner(object):
                         and isinstance(env.locals.get(t.left.id), tuple):
                     rhs = self._eval(t.comparators[0], env, built)
                     c = env.locals[t.left.id] == rhs
+                elif isinstance(t, ast.Call) and self._inlinable(t, env):
+                    tv = self._eval(t, env, built)        # a helper of the reader that is handed the element (`if self._get_flag(node, K):`)
+                    if isinstance(tv, Opaque):
+                        raise Unknown('opaque helper result')
+                    c = truthy(tv)
                 else:
                     c = truthy(ev(t, env))
             except Unknown:
